@@ -7,6 +7,7 @@
 package pbfrec
 
 import (
+	"encoding/json"
 	"math"
 	"time"
 
@@ -62,6 +63,64 @@ type AGroup struct {
 	// ways / rels
 	Ways []AWay `json:"ways"`
 	Rels []ARel `json:"rels"`
+	// run-length groups "xdense" | "xways" | "xrels" (PbfFormatBig.tla): N elements, element i (1-based) is Base with
+	// id, cs, ts advanced by (i-1) * Step.  Expand() turns them into ordinary groups.
+	N    int             `json:"n"`
+	Step AStep           `json:"step"`
+	Base json.RawMessage `json:"base"`
+}
+
+type AStep struct {
+	ID int64 `json:"id"`
+	Cs int64 `json:"cs"`
+	Ts int64 `json:"ts"`
+}
+
+// Expand replaces every run-length group of the file by the ordinary group it stands for (a structural expansion:
+// the rule "element i = base advanced by (i-1)*step" is given by the case; what the elements decode to is not known here).
+func (f *AFile) Expand() error {
+	for bi := range f.Blocks {
+		for gi := range f.Blocks[bi].Groups {
+			g := &f.Blocks[bi].Groups[gi]
+			switch g.Kind {
+			case "xdense":
+				var base ANode
+				if err := json.Unmarshal(g.Base, &base); err != nil {
+					return err
+				}
+				g.Kind, g.Nodes = "dense", make([]ANode, g.N)
+				for i := 0; i < g.N; i++ {
+					e := base
+					e.ID, e.Cs, e.Ts = base.ID+int64(i)*g.Step.ID, base.Cs+int64(i)*g.Step.Cs, base.Ts+int64(i)*g.Step.Ts
+					g.Nodes[i] = e
+				}
+			case "xways":
+				var base AWay
+				if err := json.Unmarshal(g.Base, &base); err != nil {
+					return err
+				}
+				g.Kind, g.Ways = "ways", make([]AWay, g.N)
+				for i := 0; i < g.N; i++ {
+					e := base
+					e.ID, e.Cs, e.Ts = base.ID+int64(i)*g.Step.ID, base.Cs+int64(i)*g.Step.Cs, base.Ts+int64(i)*g.Step.Ts
+					g.Ways[i] = e
+				}
+			case "xrels":
+				var base ARel
+				if err := json.Unmarshal(g.Base, &base); err != nil {
+					return err
+				}
+				g.Kind, g.Rels = "rels", make([]ARel, g.N)
+				for i := 0; i < g.N; i++ {
+					e := base
+					e.ID, e.Cs, e.Ts = base.ID+int64(i)*g.Step.ID, base.Cs+int64(i)*g.Step.Cs, base.Ts+int64(i)*g.Step.Ts
+					g.Rels[i] = e
+				}
+			}
+			g.Base = nil
+		}
+	}
+	return nil
 }
 
 type ANode struct {
@@ -137,7 +196,7 @@ func (m Mag) Down(c int64) int64 {
 		}
 	}
 	d := c - m.Base
-	if d <= 0 || d%m.Step != 0 || d/m.Step > 100000 {
+	if d <= 0 || d%m.Step != 0 || d/m.Step > 50000000 {
 		return Unknown
 	}
 	return sign * (d / m.Step)
